@@ -78,11 +78,10 @@ def pow_rule(h, c, limit):
 
 
 POW_LIMITS = {
-    # proof-of-work limits of the four selectable chains (consensus powLimit;
-    # the library gives signet the mainnet value)
+    # proof-of-work limits of the four selectable chains (consensus powLimit of each chain)
     'mainnet': 2**224 - 1,
     'testnet': 2**224 - 1,
-    'signet': 2**224 - 1,
+    'signet': 0x00000377ae000000000000000000000000000000000000000000000000000000,
     'regtest': 2**255 - 1,
 }
 
